@@ -93,6 +93,9 @@ def winding(polys, x, y):
 
 
 def signed_area(P):
+    # (referred to the first vertex: the shoelace sum of absolute coordinates
+    # cancels catastrophically far from the origin)
+    P = np.asarray(P, float) - np.asarray(P[0], float)
     Qp = np.vstack([P, P[:1]])
     return 0.5 * float(np.sum(Qp[:-1, 0] * Qp[1:, 1] - Qp[1:, 0] * Qp[:-1, 1]))
 
@@ -208,6 +211,21 @@ class Patch(Relation):
                       f'{len(polys)} sub-paths, signed areas {areas}')
             ctx.check(abs(areas[0]) != abs(areas[1]),
                       f'{cls} | inner and outer outlines coincide')
+            # the same annulus far from the origin of the plot (centre -
+            # origin of 1e5 ... 1e9 pixels): still a hole
+            far = 10.0 ** (5 + int(abs(ox) * 7 + abs(oy) * 3 + size) % 5)
+            rs_far = dict(_strip(rs), center=[rs['center'][0] + far,
+                                              rs['center'][1] - 0.5 * far],
+                          build='direct')
+            pf = flatten(data_path(S.build(rs_far).as_artist(origin=(ox, oy))))
+            af = [signed_area(P) for P in pf]
+            ctx.check(len(pf) == 2 and af[0] * af[1] < 0
+                      and abs(af[0]) != abs(af[1]),
+                      f'{cls} | far from the plot origin the annulus patch '
+                      'is not an outer outline plus an oppositely oriented '
+                      'inner outline',
+                      f'centre - origin ~ {far:.0e}: {len(pf)} sub-paths, '
+                      f'signed areas {af}')
         else:
             ctx.check(len(polys) == 1, f'{cls} | patch has {len(polys)} '
                       'sub-paths')
